@@ -125,7 +125,7 @@ theorem finishMarshal_ok {β : Type} (T : Tables) (hT : T.OK) (maxLen : Nat) (st
     obtain ⟨b1, b2, b3, b4, b5, b6, b7, b8, b9, b10, b11⟩ :=
       marshalHeader_spec T.align hT.align true 108 (T.messageType p.cls) (flagsByte p.expectReply p.autoStart) 1
         binBody.length st.nextSerial hs fs h3 binHeader hm
-    by_cases hlen : (binHeader ++ headerPadding binHeader.length ++ binBody).length > maxLen
+    by_cases hlen : (binHeader ++ headerPadding T binHeader.length ++ binBody).length > maxLen
     · rw [if_pos hlen] at h; cases h
     · rw [if_neg hlen] at h
       cases h
@@ -136,8 +136,8 @@ theorem finishMarshal_ok {β : Type} (T : Tables) (hT : T.OK) (maxLen : Nat) (st
         simp [Spec.fixedPart, Spec.fieldArray, specOf, Spec.endianByte, Spec.version, endianOf]
       have hblen : binHeader.length = 16 + (Spec.fieldArray (specOf T p st.nextSerial fs binBody)).length := by
         rw [hhdr]; simp [Spec.fixedPart_length]
-      have hpad : headerPadding binHeader.length = Spec.headerPad (specOf T p st.nextSerial fs binBody) := by
-        simp [headerPadding, Spec.headerPad, hblen]
+      have hpad : headerPadding T binHeader.length = Spec.headerPad (specOf T p st.nextSerial fs binBody) := by
+        simp [headerPadding, Spec.headerPad, hblen, hT.headerAlign]
       have hpath := marshalHeader_path T.align hT.align true _ _ _ _ _ _ hs binHeader hm
       refine ⟨rfl, rfl, rfl, rfl, rfl, rfl, rfl, rfl, hhdr, hpad, ?_, by simpa [Msg.raw] using Nat.le_of_not_gt hlen,
         b6, b5, ?_, b9, b10, ?_, ?_⟩
